@@ -5,8 +5,9 @@
      principle, monotonicity in time;
   3. bridge: the lists `assemble` / `rhs` build are exactly the coefficients of `StepEq`;
   4. resampling: `interpAt` (numpy.interp) bounds and monotonicity, `linspace`, `resample`.
-  Not proved here: that the model's Thomas solve `triSolve` returns an exact solution (needs non-zero
-  pivots); the step theorems quantify over any exact solution `SolvesTri …` instead.
+  5. the model's own solve: `elimination_exact` (induction over the rows), `pivots_ne_zero` (strict row
+     diagonal dominance), `assembled_pivots`, `triSolve_solves_assembled`, the model trajectory;
+  6. whole-table positivity from valid inputs (`ValidInputs`, `core_cells_ok`, `core_coefficients_pos`).
 -/
 import GHEVerif.Model.Radial
 import Mathlib.Tactic.Linarith
@@ -16,6 +17,7 @@ import Mathlib.Tactic.Positivity
 import Mathlib.Tactic.LinearCombination
 import Mathlib.Data.List.Chain
 import Mathlib.Data.List.Basic
+import Mathlib.Data.List.GetD
 import Mathlib.Data.Finset.Max
 import Mathlib.Algebra.BigOperators.Group.List.Basic
 import Mathlib.Algebra.BigOperators.Group.Finset.Basic
@@ -846,5 +848,462 @@ theorem resample_mono (E : Env K) (hle : LeSpec E) (xs ys : List K) (x0 y0 : K) 
     exact interpAt_bounds E hle xs ys x0 y0 hl hx hy _ (hlo i hi)
 
 end Resample
+
+section Thomas
+variable {K : Type} [Field K]
+
+/-- Row form of "x solves the tridiagonal system": rows `(l, d, u)`, right-hand sides, the unknown
+    before the first row, the unknowns.  Beyond the end the unknown reads 0. -/
+def RowsSolved : List (K × K × K) → List K → K → List K → Prop
+  | [], [], _, [] => True
+  | (l, d, u) :: rows, b :: bs, xPrev, x :: xs => l * xPrev + d * x + u * xs.headD 0 = b ∧ RowsSolved rows bs x xs
+  | _, _, _, _ => False
+
+/-- The elimination is exact whenever no pivot vanishes (induction over the rows; the invariant is
+    the reduced previous row `dPrev·xPrev + uPrev·x = bPrev`). -/
+theorem elimination_exact :
+    ∀ (rows : List (K × K × K)) (b : List K) (dPrev uPrev bPrev xPrev : K),
+      rows.length = b.length → dPrev ≠ 0 → (∀ f ∈ factorGo rows dPrev uPrev, f.dP ≠ 0) →
+      dPrev * xPrev + uPrev * (backGo (factorGo rows dPrev uPrev) (fwdGo (factorGo rows dPrev uPrev) b bPrev)).1 = bPrev →
+      RowsSolved rows b xPrev (backGo (factorGo rows dPrev uPrev) (fwdGo (factorGo rows dPrev uPrev) b bPrev)).2 ∧
+      (backGo (factorGo rows dPrev uPrev) (fwdGo (factorGo rows dPrev uPrev) b bPrev)).1
+        = (backGo (factorGo rows dPrev uPrev) (fwdGo (factorGo rows dPrev uPrev) b bPrev)).2.headD 0
+  | [], [], _, _, _, _, _, _, _, _ => by simp [factorGo, fwdGo, backGo, RowsSolved]
+  | [], _ :: _, _, _, _, _, hl, _, _, _ => by simp at hl
+  | _ :: _, [], _, _, _, _, hl, _, _, _ => by simp at hl
+  | (l, d, u) :: rows, b0 :: bs, dPrev, uPrev, bPrev, xPrev, hl, hd, hp, hprev => by
+    have hl' : rows.length = bs.length := by simpa using hl
+    simp only [factorGo, fwdGo, backGo] at hp hprev ⊢
+    have hdP : d - l / dPrev * uPrev ≠ 0 := hp _ (List.mem_cons_self ..)
+    have hp' : ∀ f ∈ factorGo rows (d - l / dPrev * uPrev) u, f.dP ≠ 0 := fun f hf => hp f (List.mem_cons_of_mem _ hf)
+    have key : ∀ r B : K, (d - l / dPrev * uPrev) * ((B - u * r) / (d - l / dPrev * uPrev)) + u * r = B := by
+      intro r B; rw [mul_div_cancel₀ _ hdP]; ring
+    have ih := elimination_exact rows bs (d - l / dPrev * uPrev) u (b0 - l / dPrev * bPrev)
+      ((b0 - l / dPrev * bPrev - u * (backGo (factorGo rows (d - l / dPrev * uPrev) u)
+          (fwdGo (factorGo rows (d - l / dPrev * uPrev) u) bs (b0 - l / dPrev * bPrev))).1) / (d - l / dPrev * uPrev))
+      hl' hdP hp' (key _ _)
+    refine ⟨⟨?_, ih.1⟩, rfl⟩
+    rw [← ih.2]
+    have e1 : l = l / dPrev * dPrev := by field_simp
+    have e2 : d = (d - l / dPrev * uPrev) + l / dPrev * uPrev := by ring
+    set r := (backGo (factorGo rows (d - l / dPrev * uPrev) u)
+          (fwdGo (factorGo rows (d - l / dPrev * uPrev) u) bs (b0 - l / dPrev * bPrev))).1 with hr
+    set dP := d - l / dPrev * uPrev with hdPdef
+    set x := (b0 - l / dPrev * bPrev - u * r) / dP with hx
+    have hx' : dP * x + u * r = b0 - l / dPrev * bPrev := key r _
+    calc l * xPrev + d * x + u * r
+        = l / dPrev * (dPrev * xPrev + uPrev * x) + (dP * x + u * r) := by
+          conv_lhs => rw [e1, e2]
+          ring
+      _ = b0 := by rw [hprev, hx']; ring
+
+theorem getD_one_eq_headD (x : K) (xs : List K) : (x :: xs).getD 1 0 = xs.headD 0 := by
+  cases xs <;> simp
+
+/-- Index form of `RowsSolved`. -/
+theorem rowsSolved_getD :
+    ∀ (rows : List (K × K × K)) (b : List K) (xPrev : K) (x : List K), RowsSolved rows b xPrev x →
+      x.length = rows.length ∧ ∀ i, i < rows.length →
+        (rows.getD i (0, 0, 0)).1 * (if i = 0 then xPrev else x.getD (i - 1) 0)
+          + (rows.getD i (0, 0, 0)).2.1 * x.getD i 0 + (rows.getD i (0, 0, 0)).2.2 * x.getD (i + 1) 0 = b.getD i 0
+  | [], [], _, [], _ => by simp
+  | [], [], _, _ :: _, h => by simp [RowsSolved] at h
+  | [], _ :: _, _, _, h => by simp [RowsSolved] at h
+  | _ :: _, [], _, _, h => by simp [RowsSolved] at h
+  | _ :: _, _ :: _, _, [], h => by simp [RowsSolved] at h
+  | (l, d, u) :: rows, b0 :: bs, xPrev, x :: xs, h => by
+    simp only [RowsSolved] at h
+    obtain ⟨ihl, ih⟩ := rowsSolved_getD rows bs x xs h.2
+    refine ⟨by simp [ihl], ?_⟩
+    intro i hi
+    cases i with
+    | zero =>
+      simp only [List.getD_cons_zero]
+      rw [getD_one_eq_headD]; exact h.1
+    | succ j =>
+      have hj : j < rows.length := by simpa using hi
+      have := ih j hj
+      simp only [List.getD_cons_succ, if_neg (Nat.succ_ne_zero j), Nat.add_sub_cancel]
+      cases j with
+      | zero => simpa using this
+      | succ k => simpa using this
+
+
+theorem rowsOf_length (dl d du : List K) (hdl : dl.length + 1 = d.length) (hdu : du.length + 1 = d.length) :
+    (rowsOf dl d du).length = d.length := by
+  simp [rowsOf]; omega
+
+theorem rowsOf_getD (dl d du : List K) (hdl : dl.length + 1 = d.length) (hdu : du.length + 1 = d.length)
+    (i : ℕ) (hi : i < d.length) :
+    (rowsOf dl d du).getD i (0, 0, 0) = ((0 :: dl).getD i 0, d.getD i 0, (du ++ [0]).getD i 0) := by
+  have h1 : i < (0 :: dl).length := by simp; omega
+  have h2 : i < (du ++ [0]).length := by simp; omega
+  have h3 : i < (List.zip d (du ++ [0])).length := by simp; omega
+  have e : rowsOf dl d du = List.zipWith (fun l (du : K × K) => (l, du.1, du.2)) (0 :: dl) (List.zip d (du ++ [0])) := by
+    simp [rowsOf]
+  rw [e, List.getD_eq_getElem?_getD, List.getD_eq_getElem?_getD, List.getD_eq_getElem?_getD, List.getD_eq_getElem?_getD,
+    List.getElem?_zipWith, List.getElem?_eq_getElem h3, List.getElem_zip,
+    List.getElem?_eq_getElem h1, List.getElem?_eq_getElem hi, List.getElem?_eq_getElem h2]
+  rfl
+
+theorem getD_append_zero (du : List K) (i : ℕ) : (du ++ [0]).getD i 0 = du.getD i 0 := by
+  rcases Nat.lt_or_ge i du.length with h | h
+  · rw [List.getD_append _ _ _ _ h]
+  · rw [List.getD_append_right _ _ _ _ h, List.getD_eq_default _ _ h]
+    cases i - du.length <;> simp
+
+/-- The model's solve returns an exact solution of the tridiagonal system whenever no pivot of
+    its elimination vanishes. -/
+theorem triSolve_solves_of_pivots (dl d du b : List K) (hdl : dl.length + 1 = d.length) (hdu : du.length + 1 = d.length)
+    (hb : b.length = d.length) (hpiv : ∀ f ∈ factor (rowsOf dl d du), f.dP ≠ 0) :
+    SolvesTri dl d du b (triSolve dl d du b) := by
+  have hlen := rowsOf_length dl d du hdl hdu
+  have h := elimination_exact (rowsOf dl d du) b ((1 : ℕ) : K) ((0 : ℕ) : K) ((0 : ℕ) : K) 0 (by rw [hlen, hb])
+    (by simp) hpiv (by simp)
+  obtain ⟨hxl, hrows⟩ := rowsSolved_getD _ _ _ _ h.1
+  refine ⟨by rw [← hlen]; exact hxl, ?_⟩
+  intro i hi
+  have := hrows i (by rw [hlen]; exact hi)
+  rw [rowsOf_getD dl d du hdl hdu i hi] at this
+  simp only at this
+  have hdu' : (du ++ [0]).getD i 0 = du.getD i 0 := getD_append_zero du i
+  rw [hdu'] at this
+  cases i with
+  | zero => simpa [triSolve, factor, solveFac] using this
+  | succ j =>
+    rw [if_neg (Nat.succ_ne_zero j)] at this ⊢
+    simpa [triSolve, factor, solveFac] using this
+
+end Thomas
+
+section Pivots
+variable {K : Type} [Field K] [LinearOrder K] [IsStrictOrderedRing K]
+
+/-- Strict row diagonal dominance keeps every pivot of the elimination away from 0
+    (invariant: `|u_prev| < |d'_prev|`). -/
+theorem pivots_ne_zero :
+    ∀ (rows : List (K × K × K)) (dPrev uPrev : K), |uPrev| < |dPrev| →
+      (∀ r ∈ rows, |r.1| + |r.2.2| < |r.2.1|) → ∀ f ∈ factorGo rows dPrev uPrev, f.dP ≠ 0
+  | [], _, _, _, _, f, hf => by simp [factorGo] at hf
+  | (l, d, u) :: rows, dPrev, uPrev, hprev, hdom, f, hf => by
+    have hrow := hdom (l, d, u) (List.mem_cons_self ..)
+    simp only at hrow
+    have hdpos : 0 < |dPrev| := lt_of_le_of_lt (abs_nonneg _) hprev
+    have h1 : |l / dPrev * uPrev| ≤ |l| := by
+      rw [abs_mul, abs_div, div_mul_eq_mul_div, div_le_iff₀ hdpos]
+      exact mul_le_mul_of_nonneg_left hprev.le (abs_nonneg _)
+    have h2 : |d| - |l / dPrev * uPrev| ≤ |d - l / dPrev * uPrev| := abs_sub_abs_le_abs_sub _ _
+    have h3 : |u| < |d - l / dPrev * uPrev| := by linarith [abs_nonneg l]
+    simp only [factorGo, List.mem_cons] at hf
+    rcases hf with rfl | hf
+    · simp only
+      intro h0; rw [h0, abs_zero] at h3; exact absurd h3 (not_lt.mpr (abs_nonneg _))
+    · exact pivots_ne_zero rows _ _ h3 (fun r hr => hdom r (List.mem_cons_of_mem _ hr)) f hf
+
+
+/-- The assembled system is strictly row diagonally dominant when conductances and capacities are
+    positive, so the model's elimination meets no zero pivot. -/
+theorem assembled_pivots (E : Env K) (m : ℕ) (dt : K) (c : ℕ → Cell K)
+    (hκ : ∀ i, i ≤ m → 0 < cond E (c i) (c (i + 1))) (ha : ∀ i, i ≤ m → 0 < capRate dt (c i)) :
+    ∀ f ∈ factor (rowsOf (assemble E (m + 2) dt ((List.range (m + 2)).map c)).dl
+                          (assemble E (m + 2) dt ((List.range (m + 2)).map c)).d
+                          (assemble E (m + 2) dt ((List.range (m + 2)).map c)).du), f.dP ≠ 0 := by
+  obtain ⟨hdl, hd, hdu⟩ := assemble_range_diag E m dt c
+  rw [hdl, hd, hdu]
+  set dl := (List.range m).map (fun i => cond E (c i) (c (i + 1)) / capRate dt (c (i + 1))) ++ [0] with hdl'
+  set d := [-cond E (c 0) (c 1) / capRate dt (c 0) - 1]
+        ++ (List.range m).map (fun i => -cond E (c i) (c (i + 1)) / capRate dt (c (i + 1))
+              - cond E (c (i + 1)) (c (i + 2)) / capRate dt (c (i + 1)) - 1) ++ [1] with hd'
+  set du := [cond E (c 0) (c 1) / capRate dt (c 0)]
+        ++ (List.range m).map (fun i => cond E (c (i + 1)) (c (i + 2)) / capRate dt (c (i + 1))) with hdu'
+  have l1 : dl.length + 1 = d.length := by simp [hdl', hd']
+  have l2 : du.length + 1 = d.length := by simp [hdu', hd']
+  have l3 : d.length = m + 2 := by simp [hd']
+  unfold factor
+  apply pivots_ne_zero
+  · simp
+  · intro r hr
+    obtain ⟨i, hi, rfl⟩ := List.getElem_of_mem hr
+    have hi' : i < d.length := by rw [← rowsOf_length dl d du l1 l2]; exact hi
+    have e : (rowsOf dl d du)[i] = (rowsOf dl d du).getD i (0, 0, 0) := by
+      rw [List.getD_eq_getElem _ _ hi]
+    rw [e, rowsOf_getD dl d du l1 l2 i hi', getD_append_zero]
+    simp only
+    rcases Nat.eq_zero_or_pos i with rfl | hpos
+    · have p := div_pos (hκ 0 (by omega)) (ha 0 (by omega))
+      have e1 : d.getD 0 0 = -cond E (c 0) (c 1) / capRate dt (c 0) - 1 := by rw [hd', List.append_assoc, getD_first]
+      have e2 : du.getD 0 0 = cond E (c 0) (c 1) / capRate dt (c 0) := by rw [hdu', getD_first]
+      rw [e1, e2, List.getD_cons_zero, abs_zero, abs_of_pos p, neg_div,
+        abs_of_neg (by linarith : -(cond E (c 0) (c 1) / capRate dt (c 0)) - 1 < 0)]
+      linarith
+    · obtain ⟨j, rfl⟩ : ∃ j, i = j + 1 := ⟨i - 1, by omega⟩
+      rw [List.getD_cons_succ]
+      rcases Nat.lt_or_ge j m with hj | hj
+      · have p := div_pos (hκ j (by omega)) (ha (j + 1) (by omega))
+        have q := div_pos (hκ (j + 1) (by omega)) (ha (j + 1) (by omega))
+        rw [hdl', hd', hdu', getD_dl_mid _ _ _ _ hj, getD_mid _ _ _ _ _ hj, getD_du_mid _ _ _ _ hj, abs_of_pos p, abs_of_pos q,
+          neg_div, abs_of_neg (by linarith)]
+        linarith
+      · have : j = m := by omega
+        subst this
+        rw [hdl', hd', hdu', getD_dl_last, getD_last, getD_du_out]
+        simp
+
+/-- (capstone of the solve) With positive conductances and capacities the model's own `triSolve`
+    returns an exact solution of the system it assembled, for every right-hand side. -/
+theorem triSolve_solves_assembled (E : Env K) (m : ℕ) (dt : K) (c : ℕ → Cell K) (b : List K) (hb : b.length = m + 2)
+    (hκ : ∀ i, i ≤ m → 0 < cond E (c i) (c (i + 1))) (ha : ∀ i, i ≤ m → 0 < capRate dt (c i)) :
+    SolvesTri (assemble E (m + 2) dt ((List.range (m + 2)).map c)).dl
+      (assemble E (m + 2) dt ((List.range (m + 2)).map c)).d
+      (assemble E (m + 2) dt ((List.range (m + 2)).map c)).du b
+      (triSolve (assemble E (m + 2) dt ((List.range (m + 2)).map c)).dl
+        (assemble E (m + 2) dt ((List.range (m + 2)).map c)).d
+        (assemble E (m + 2) dt ((List.range (m + 2)).map c)).du b) := by
+  have hp := assembled_pivots E m dt c hκ ha
+  obtain ⟨hdl, hd, hdu⟩ := assemble_range_diag E m dt c
+  apply triSolve_solves_of_pivots _ _ _ _ _ _ _ hp
+  · rw [hdl, hd]; simp
+  · rw [hdu, hd]; simp
+  · rw [hd, hb]; simp
+
+end Pivots
+
+section Traj
+variable {K : Type} [Field K] [LinearOrder K] [IsStrictOrderedRing K]
+
+/-- What the loop body of the model does to the temperature list: build the right-hand side,
+    solve with the factorised matrix (`stepOnce`: `solveFac fac (rhs n q ad0 s.T)`). -/
+def modelStep (E : Env K) (m : ℕ) (dt q : K) (c : ℕ → Cell K) (T : List K) : List K :=
+  triSolve (assemble E (m + 2) dt ((List.range (m + 2)).map c)).dl
+    (assemble E (m + 2) dt ((List.range (m + 2)).map c)).d
+    (assemble E (m + 2) dt ((List.range (m + 2)).map c)).du
+    (rhs (m + 2) q (assemble E (m + 2) dt ((List.range (m + 2)).map c)).ad0 T)
+
+/-- The model's temperature list after `k` passes of the loop. -/
+def modelTraj (E : Env K) (m : ℕ) (dt q : K) (c : ℕ → Cell K) (T0 : List K) (k : ℕ) : List K :=
+  (modelStep E m dt q c)^[k] T0
+
+omit [LinearOrder K] [IsStrictOrderedRing K] in
+theorem rhs_length (m : ℕ) (q ad0 : K) (T : List K) (hT : T.length = m + 2) : (rhs (m + 2) q ad0 T).length = m + 2 := by
+  simp [rhs, hT]
+
+theorem modelStep_spec (E : Env K) (m : ℕ) (dt q : K) (c : ℕ → Cell K) (T : List K) (hT : T.length = m + 2)
+    (hκ : ∀ i, i ≤ m → 0 < cond E (c i) (c (i + 1))) (ha : ∀ i, i ≤ m → 0 < capRate dt (c i)) :
+    (modelStep E m dt q c T).length = m + 2 ∧
+    SolvesTri (assemble E (m + 2) dt ((List.range (m + 2)).map c)).dl
+      (assemble E (m + 2) dt ((List.range (m + 2)).map c)).d
+      (assemble E (m + 2) dt ((List.range (m + 2)).map c)).du
+      (rhs (m + 2) q (assemble E (m + 2) dt ((List.range (m + 2)).map c)).ad0 T) (modelStep E m dt q c T) := by
+  have h := triSolve_solves_assembled E m dt c
+    (rhs (m + 2) q (assemble E (m + 2) dt ((List.range (m + 2)).map c)).ad0 T) (rhs_length m q _ T hT) hκ ha
+  refine ⟨?_, h⟩
+  have hdlen : (assemble E (m + 2) dt ((List.range (m + 2)).map c)).d.length = m + 2 := by
+    rw [(assemble_range_diag E m dt c).2.1]; simp
+  exact h.1.trans hdlen
+
+theorem modelTraj_length (E : Env K) (m : ℕ) (dt q : K) (c : ℕ → Cell K) (T0 : List K) (hT : T0.length = m + 2)
+    (hκ : ∀ i, i ≤ m → 0 < cond E (c i) (c (i + 1))) (ha : ∀ i, i ≤ m → 0 < capRate dt (c i)) (k : ℕ) :
+    (modelTraj E m dt q c T0 k).length = m + 2 := by
+  induction k with
+  | zero => simpa [modelTraj] using hT
+  | succ k ih =>
+    unfold modelTraj at ih ⊢
+    rw [Function.iterate_succ_apply']
+    exact (modelStep_spec E m dt q c _ ih hκ ha).1
+
+/-- Every pass of the model's loop produces an exact solution of the assembled system for the
+    previous temperatures (in the index-function form the step theorems use). -/
+theorem modelTraj_solves (E : Env K) (m : ℕ) (dt q : K) (c : ℕ → Cell K) (T0 : List K) (hT : T0.length = m + 2)
+    (hκ : ∀ i, i ≤ m → 0 < cond E (c i) (c (i + 1))) (ha : ∀ i, i ≤ m → 0 < capRate dt (c i)) (k : ℕ) :
+    SolvesTri (assemble E (m + 2) dt ((List.range (m + 2)).map c)).dl
+      (assemble E (m + 2) dt ((List.range (m + 2)).map c)).d
+      (assemble E (m + 2) dt ((List.range (m + 2)).map c)).du
+      (rhs (m + 2) q (assemble E (m + 2) dt ((List.range (m + 2)).map c)).ad0
+        ((List.range (m + 2)).map (fun i => (modelTraj E m dt q c T0 k).getD i 0)))
+      ((List.range (m + 2)).map (fun i => (modelTraj E m dt q c T0 (k + 1)).getD i 0)) := by
+  have l0 := modelTraj_length E m dt q c T0 hT hκ ha k
+  have l1 := modelTraj_length E m dt q c T0 hT hκ ha (k + 1)
+  have e0 := list_eq_range_map (modelTraj E m dt q c T0 k) 0
+  have e1 := list_eq_range_map (modelTraj E m dt q c T0 (k + 1)) 0
+  rw [l0] at e0
+  rw [l1] at e1
+  rw [← e0, ← e1]
+  have : modelTraj E m dt q c T0 (k + 1) = modelStep E m dt q c (modelTraj E m dt q c T0 k) := by
+    unfold modelTraj; rw [Function.iterate_succ_apply']
+  rw [this]
+  exact (modelStep_spec E m dt q c _ l0 hκ ha).2
+
+end Traj
+
+section TablePos
+variable {K : Type} [Field K] [LinearOrder K] [IsStrictOrderedRing K]
+
+/-- What the positivity results need of `log`: positive above 1 (true of `Real.log`). -/
+def LogPos (E : Env K) : Prop := ∀ x : K, 1 < x → 0 < E.log x
+
+/-- A well-formed cell: positive radii in order, positive conductivity, capacity and volume. -/
+def CellOK (c : Cell K) : Prop := 0 < c.rIn ∧ c.rIn < c.rC ∧ c.rC < c.rOut ∧ 0 < c.k ∧ 0 < c.rhoCp ∧ 0 < c.vol
+
+theorem fillSingleCell_ok (E : Env K) (hpi : 0 < E.pi) (inner thick k rc : K) (h1 : 0 < inner) (h2 : 0 < thick)
+    (h3 : 0 < k) (h4 : 0 < rc) : CellOK (fillSingleCell E inner thick k rc) := by
+  unfold CellOK fillSingleCell
+  simp only
+  push_cast
+  refine ⟨h1, by linarith, by linarith, h3, h4, ?_⟩
+  apply mul_pos hpi
+  nlinarith
+
+theorem regionCells_ok (E : Env K) (hpi : 0 < E.pi) (r0 t k rc : K) (n : ℕ) (h1 : 0 < r0) (h2 : 0 < t)
+    (h3 : 0 < k) (h4 : 0 < rc) : ∀ c ∈ regionCells E r0 t k rc n, CellOK c := by
+  intro c hc
+  simp only [regionCells, List.mem_map] at hc
+  obtain ⟨j, _, rfl⟩ := hc
+  exact fillSingleCell_ok E hpi _ _ _ _ (by positivity) h2 h3 h4
+
+/-- Conductance between two well-formed cells, and the capacity rate of one, are positive. -/
+theorem cond_pos_of_ok (E : Env K) (hlog : LogPos E) (hpi : 0 < E.pi) (a b : Cell K) (ha : CellOK a) (hb : CellOK b) :
+    0 < cond E a b := by
+  obtain ⟨a1, a2, a3, a4, _, _⟩ := ha
+  obtain ⟨b1, b2, _, b4, _, _⟩ := hb
+  have tp : 0 < twoPi E := by unfold twoPi; push_cast; linarith
+  have h1 : 0 < half1 E a := div_pos (hlog _ ((one_lt_div (lt_trans a1 a2)).mpr a3)) (mul_pos tp a4)
+  have h2 : 0 < half2 E b := div_pos (hlog _ ((one_lt_div b1).mpr b2)) (mul_pos tp b4)
+  unfold cond; exact one_div_pos.mpr (add_pos h1 h2)
+
+theorem capRate_pos_of_ok (dt : K) (hdt : 0 < dt) (a : Cell K) (ha : CellOK a) : 0 < capRate dt a := by
+  unfold capRate; exact div_pos (mul_pos ha.2.2.2.2.1 ha.2.2.2.2.2) hdt
+
+/-- Validity of the inputs, stated on the inputs and the derived radii. -/
+structure ValidInputs (E : Env K) (C : Counts) (x : Inputs K) (rf rpg : K) : Prop where
+  pi_pos : 0 < E.pi
+  counts : C.Pos
+  rFluid_pos : 0 < (geometry E C x).rFluid          -- sqrt2·r_po − 2 (r_po − r_pi) > 0
+  wall : x.rPi < x.rPo
+  rPi_pos : 0 < x.rPi
+  fits : (geometry E C x).rOutTube < x.rB           -- sqrt2·r_po < r_b
+  far : x.rB < (geometry E C x).rFar                -- r_b < far-field radius
+  rf_pos : 0 < rf
+  rpg_pos : 0 < rpg
+  kSoil_pos : 0 < x.kSoil
+  rcSoil_pos : 0 < x.rcSoil
+  rcGrout_pos : 0 < x.rcGrout
+  rcPipe_pos : 0 < x.rcPipe
+  rcFluid_pos : 0 < x.rcFluid
+
+theorem geo_steps (E : Env K) (C : Counts) (x : Inputs K) :
+    (geometry E C x).rConv = (geometry E C x).rFluid + 3 / 4 * (x.rPo - x.rPi) ∧
+    (geometry E C x).rInTube = (geometry E C x).rConv + (x.rPo - x.rPi) / 4 ∧
+    (geometry E C x).rOutTube = (geometry E C x).rInTube + (x.rPo - x.rPi) ∧
+    (geometry E C x).rB = x.rB := by
+  simp only [geometry]
+  push_cast
+  refine ⟨by ring, by ring, by ring, trivial⟩
+
+/-- (2) Every cell of the table built from valid inputs is well-formed. -/
+theorem core_cells_ok (E : Env K) (hlog : LogPos E) (C : Counts) (x : Inputs K) (rf rpg : K)
+    (hv : ValidInputs E C x rf rpg) : ∀ c ∈ fillRadialCellsCore E C x rf rpg, CellOK c := by
+  obtain ⟨g1, g2, g3, g4⟩ := geo_steps E C x
+  obtain ⟨p1, p2, p3, p4, p5⟩ := hv.counts
+  have tw : 0 < x.rPo - x.rPi := sub_pos.mpr hv.wall
+  have hF := hv.rFluid_pos
+  have hC : 0 < (geometry E C x).rConv := by rw [g1]; positivity
+  have hI : 0 < (geometry E C x).rInTube := by rw [g2]; positivity
+  have hO : 0 < (geometry E C x).rOutTube := by rw [g3]; positivity
+  have hB : 0 < x.rB := lt_trans hO hv.fits
+  have n1 : (0 : K) < C.nFluid := by exact_mod_cast p1
+  have n2 : (0 : K) < C.nConv := by exact_mod_cast p2
+  have n3 : (0 : K) < C.nPipe := by exact_mod_cast p3
+  have n4 : (0 : K) < C.nGrout := by exact_mod_cast p4
+  have n5 : (0 : K) < C.nSoil := by exact_mod_cast p5
+  have t1 : 0 < (geometry E C x).thFluid := by
+    show 0 < ((geometry E C x).rConv - (geometry E C x).rFluid) / (C.nFluid : K)
+    apply div_pos _ n1; rw [g1]; linarith
+  have t2 : 0 < (geometry E C x).thConv := by
+    show 0 < ((geometry E C x).rInTube - (geometry E C x).rConv) / (C.nConv : K)
+    apply div_pos _ n2; rw [g2]; linarith
+  have t3 : 0 < (geometry E C x).thPipe := by
+    show 0 < ((geometry E C x).rOutTube - (geometry E C x).rInTube) / (C.nPipe : K)
+    apply div_pos _ n3; rw [g3]; linarith
+  have t4 : 0 < (geometry E C x).thGrout := by
+    show 0 < (x.rB - (geometry E C x).rOutTube) / (C.nGrout : K)
+    apply div_pos _ n4; linarith [hv.fits]
+  have t5 : 0 < (geometry E C x).thSoil := by
+    show 0 < ((geometry E C x).rFar - x.rB) / (C.nSoil : K)
+    apply div_pos _ n5; linarith [hv.far]
+  have tp : 0 < twoPi E := by unfold twoPi; push_cast; linarith [hv.pi_pos]
+  have k1 : (0 : K) < ((Gen.Radial.conductivityFluid : ℕ) : K) := by
+    have : 0 < Gen.Radial.conductivityFluid := by decide
+    exact_mod_cast this
+  have k2 : 0 < kConv E (geometry E C x) rf := by
+    unfold kConv
+    exact div_pos (hlog _ ((one_lt_div hC).mpr (by rw [g2]; linarith))) (mul_pos tp hv.rf_pos)
+  have k3 : 0 < kPipeGrout E (geometry E C x) rpg := by
+    unfold kPipeGrout
+    rw [g4]
+    exact div_pos (hlog _ ((one_lt_div hI).mpr (by linarith [hv.fits]))) (mul_pos tp hv.rpg_pos)
+  have c1 : 0 < rhoCpEqFluid x (geometry E C x) := by
+    unfold rhoCpEqFluid
+    apply div_pos
+    · have := hv.rPi_pos; have := hv.rcFluid_pos; push_cast; positivity
+    · rw [g1]; nlinarith
+  have c2 : (0 : K) < ofRat Gen.Radial.rhoCpConv := by
+    have : (ofRat Gen.Radial.rhoCpConv : K) = 1 := by
+      simp [ofRat, Gen.Radial.rhoCpConv]
+    rw [this]; exact one_pos
+  intro c hc
+  simp only [fillRadialCellsCore, List.mem_append] at hc
+  rcases hc with (((h | h) | h) | h) | h
+  · exact regionCells_ok E hv.pi_pos _ _ _ _ _ hF t1 k1 c1 c h
+  · exact regionCells_ok E hv.pi_pos _ _ _ _ _ hC t2 k2 c2 c h
+  · exact regionCells_ok E hv.pi_pos _ _ _ _ _ hI t3 k3 hv.rcPipe_pos c h
+  · exact regionCells_ok E hv.pi_pos _ _ _ _ _ hO t4 k3 hv.rcGrout_pos c h
+  · exact regionCells_ok E hv.pi_pos _ _ _ _ _ (by rw [g4]; exact hB) t5 hv.kSoil_pos hv.rcSoil_pos c h
+
+
+theorem core_temp {K : Type} [Field K] (E : Env K) (C : Counts) (x : Inputs K) (rf rpg : K) :
+    ∀ c ∈ fillRadialCellsCore E C x rf rpg, c.temp = ((Gen.Radial.initTemp : ℕ) : K) := by
+  intro c hc
+  simp only [fillRadialCellsCore, List.mem_append, regionCells, List.mem_map] at hc
+  rcases hc with (((⟨j, _, rfl⟩ | ⟨j, _, rfl⟩) | ⟨j, _, rfl⟩) | ⟨j, _, rfl⟩) | ⟨j, _, rfl⟩ <;> rfl
+
+/-- (2) Hence all conductances and capacity rates of the assembled system are positive. -/
+theorem core_coefficients_pos (E : Env K) (hlog : LogPos E) (C : Counts) (x : Inputs K) (rf rpg dt : K)
+    (hv : ValidInputs E C x rf rpg) (hdt : 0 < dt) (dflt : Cell K) :
+    (∀ i, i + 1 < (fillRadialCellsCore E C x rf rpg).length →
+      0 < cond E ((fillRadialCellsCore E C x rf rpg).getD i dflt) ((fillRadialCellsCore E C x rf rpg).getD (i + 1) dflt)) ∧
+    (∀ i, i < (fillRadialCellsCore E C x rf rpg).length →
+      0 < capRate dt ((fillRadialCellsCore E C x rf rpg).getD i dflt)) := by
+  have ok := core_cells_ok E hlog C x rf rpg hv
+  have mem : ∀ i, i < (fillRadialCellsCore E C x rf rpg).length →
+      CellOK ((fillRadialCellsCore E C x rf rpg).getD i dflt) := by
+    intro i hi
+    rw [List.getD_eq_getElem _ _ hi]
+    exact ok _ (List.getElem_mem hi)
+  exact ⟨fun i hi => cond_pos_of_ok E hlog hv.pi_pos _ _ (mem i (by omega)) (mem (i + 1) hi),
+    fun i hi => capRate_pos_of_ok dt hdt _ (mem i hi)⟩
+
+end TablePos
+
+section StepOnce
+variable {K : Type} [Field K]
+
+/-- What one successful pass of the model's loop body leaves in the state: the temperatures are the
+    solve of the right-hand side built from the previous temperatures, and the appended `g`, `g_bhw`
+    are the formulas of the theorems evaluated at the new fluid / wall temperature. -/
+theorem stepOnce_ok (E : Env K) (n bhIdx : ℕ) (fac : List (Fac K)) (ad0 q dt tS c0 rb : K) (s s' : LoopState K)
+    (h : stepOnce E n bhIdx fac ad0 q dt tS c0 rb s = .ok s') :
+    s'.T = solveFac fac (rhs n q ad0 s.T) ∧ s'.nSteps = s.nSteps + 1 ∧ s'.time = s.time + dt ∧
+    s'.g = c0 * ((s'.T.headD 0 - ((Gen.Radial.initTemp : ℕ) : K)) / q - rb) :: s.g ∧
+    s'.gBhw = c0 * (((s'.T.drop bhIdx).headD 0 - ((Gen.Radial.initTemp : ℕ) : K)) / q) :: s.gBhw := by
+  unfold stepOnce at h
+  simp only [bind, Except.bind, pure, Except.pure, throw, throwThe, MonadExceptOf.throw, Nat.cast_zero] at h
+  split at h
+  · exact absurd h (by simp)
+  · split at h
+    · exact absurd h (by simp)
+    · injection h with h
+      subst h
+      simp
+end StepOnce
 
 end GHEVerif.Radial
